@@ -10,7 +10,10 @@ CHECK = Check(
           "option sets naming the dotted field of the mutated position / its top ancestor / a sibling (element) field / the bare last "
           "name (an unrelated root-level key of the same name) / nothing, as Exclude, as Filter (with and without the ancestors), both at once, "
           "empty and nil options, and for float shifts Precision above (0.1) / below (1e-5) the gap and a negative Precision; "
-          "DeepEqualWithOptions in both argument orders; plus inspector.DEQMustCheck over {nil, empty, Exclude, Filter, both, "
+          "DeepEqualWithOptions in both argument orders; plus the argument-form matrix (every ordered combination of the operand "
+          "forms (T, *T, **T) x (T, *T, **T), both orders in each) on the first mutation of every kind of the most populated variant "
+          "with the mutated field excluded / filtered in (root collections: empty options / a Filter naming nothing; floats also "
+          "Precision above the gap): the demanded answer in every cell; plus inspector.DEQMustCheck over {nil, empty, Exclude, Filter, both, "
           "precision only} x {listed, unlisted, empty, dotted} paths and EqualFloat64/32 exactly at, just inside and just outside the "
           "tolerance in force. distinct = distinct input text."),
     assumptions=["a field's option name is the dotted chain of struct field names leading to it (map keys and slice indices are not part of it)",
